@@ -2,8 +2,10 @@ package main
 
 import (
 	"github.com/oasisprotocol/oasis-core/go/common"
+	"github.com/oasisprotocol/oasis-core/go/common/cbor"
 	beacon "github.com/oasisprotocol/oasis-core/go/beacon/api"
 	"github.com/oasisprotocol/oasis-core/go/common/crypto/signature"
+	"github.com/oasisprotocol/oasis-core/go/consensus/api/transaction"
 	"github.com/oasisprotocol/oasis-core/go/common/entity"
 	"github.com/oasisprotocol/oasis-core/go/common/node"
 	registry "github.com/oasisprotocol/oasis-core/go/registry/api"
@@ -167,6 +169,69 @@ func (w *world) runtimeTxs() []txT {
 		nodeTx("node2-renew compute without runtimes", k.NodeDescriptor(2, 2, 13, node.RoleValidator|node.RoleComputeWorker), k.NodeSigners(2), k.Nodes[2].NodeSigner),
 		{Name: "executor-commit(n0,empty)", Signer: k.Nodes[0].NodeSigner, Method: roothash.MethodExecutorCommit, Body: roothash.ExecutorCommit{ID: rid}},
 		{Name: "roothash-evidence(a0,empty)", Signer: k.Accounts[0], Method: roothash.MethodEvidence, Body: roothash.Evidence{ID: rid}},
+	}
+	return ts
+}
+
+// vaultTxs: the vault universe of C08.  Vault V is created by a0 (admin
+// authority {a0, a1} threshold 1, suspend authority {a1}); vault W by a1 with
+// admin threshold 2 (actions stay pending until the second authorisation).
+func (w *world) vaultTxs() []txT {
+	k := w.keys
+	a0 := staking.NewAddress(k.Accounts[0].Public())
+	a1 := staking.NewAddress(k.Accounts[1].Public())
+	a2 := staking.NewAddress(k.Accounts[2].Public())
+	V := vault.NewVaultAddress(a0, 1) // the id is the creator's nonce after the creating transaction (its first)
+	W := vault.NewVaultAddress(a1, 1)
+	auth := func(name string, signer signature.Signer, v staking.Address, nonce uint64, act vault.Action) txT {
+		return txT{Name: name, Signer: signer, Method: vault.MethodAuthorizeAction, Body: vault.AuthorizeAction{Vault: v, Nonce: nonce, Action: act}, FeeAmt: 1}
+	}
+	policy := func(addr staking.Address, limit, interval uint64) vault.Action {
+		return vault.Action{UpdateWithdrawPolicy: &vault.ActionUpdateWithdrawPolicy{Address: addr, Policy: vault.WithdrawPolicy{LimitAmount: qq(limit), LimitInterval: interval}}}
+	}
+	exec := func(method transaction.MethodName, body any) vault.Action {
+		return vault.Action{ExecuteMessage: &vault.ActionExecuteMessage{Method: method, Body: cbor.Marshal(body)}}
+	}
+	ts := []txT{
+		{Name: "vault.Create(a0)", Signer: k.Accounts[0], Method: vault.MethodCreate, Body: vault.Create{AdminAuthority: vault.Authority{Addresses: []staking.Address{a0, a1}, Threshold: 1}, SuspendAuthority: vault.Authority{Addresses: []staking.Address{a1}, Threshold: 1}}, FeeAmt: 1},
+		{Name: "vault.Create(a1,thr2)", Signer: k.Accounts[1], Method: vault.MethodCreate, Body: vault.Create{AdminAuthority: vault.Authority{Addresses: []staking.Address{a0, a1}, Threshold: 2}, SuspendAuthority: vault.Authority{Addresses: []staking.Address{a0}, Threshold: 1}}},
+		{Name: "transfer(a0->V,40)", Signer: k.Accounts[0], Method: staking.MethodTransfer, Body: staking.Transfer{To: V, Amount: qq(40)}, FeeAmt: 1},
+		{Name: "transfer(a0->W,40)", Signer: k.Accounts[0], Method: staking.MethodTransfer, Body: staking.Transfer{To: W, Amount: qq(40)}},
+		auth("V.authorize(a0,#0,policy a1 60/10)", k.Accounts[0], V, 0, policy(a1, 60, 10)),
+		auth("V.authorize(a0,#1,policy a1 60/10)", k.Accounts[0], V, 1, policy(a1, 60, 10)),
+		auth("V.authorize(a0,#1,policy a1 disabled)", k.Accounts[0], V, 1, policy(a1, 0, 0)),
+		auth("V.authorize(a2 no authority,#0,policy)", k.Accounts[2], V, 0, policy(a2, 60, 10)),
+		auth("V.authorize(a0,#7 wrong nonce,policy)", k.Accounts[0], V, 7, policy(a1, 60, 10)),
+		auth("V.authorize(a1,#0,suspend)", k.Accounts[1], V, 0, vault.Action{Suspend: &vault.ActionSuspend{}}),
+		auth("V.authorize(a1,#1,suspend)", k.Accounts[1], V, 1, vault.Action{Suspend: &vault.ActionSuspend{}}),
+		auth("V.authorize(a0,#1,resume)", k.Accounts[0], V, 1, vault.Action{Resume: &vault.ActionResume{}}),
+		auth("V.authorize(a0,#2,resume)", k.Accounts[0], V, 2, vault.Action{Resume: &vault.ActionResume{}}),
+		auth("V.authorize(a0,#1,exec transfer V->a2 30)", k.Accounts[0], V, 1, exec(staking.MethodTransfer, staking.Transfer{To: a2, Amount: qq(30)})),
+		auth("V.authorize(a0,#1,exec transfer V->a2 1000>balance)", k.Accounts[0], V, 1, exec(staking.MethodTransfer, staking.Transfer{To: a2, Amount: qq(1000)})),
+		auth("V.authorize(a0,#0,exec transfer from empty vault)", k.Accounts[0], V, 0, exec(staking.MethodTransfer, staking.Transfer{To: a2, Amount: qq(1)})),
+		auth("V.authorize(a0,#1,exec escrow V->e0 30)", k.Accounts[0], V, 1, exec(staking.MethodAddEscrow, staking.Escrow{Account: staking.NewAddress(k.Entities[0].Public()), Amount: qq(30)})),
+		auth("V.authorize(a0,#1,exec allow a2 +10)", k.Accounts[0], V, 1, exec(staking.MethodAllow, staking.Allow{Beneficiary: a2, AmountChange: qq(10)})),
+		auth("V.authorize(a0,#1,exec burn 50>balance)", k.Accounts[0], V, 1, exec(staking.MethodBurn, staking.Burn{Amount: qq(50)})),
+		auth("V.authorize(a0,#1,authority thr 3 of 2)", k.Accounts[0], V, 1, vault.Action{UpdateAuthority: &vault.ActionUpdateAuthority{AdminAuthority: &vault.Authority{Addresses: []staking.Address{a0, a1}, Threshold: 3}}}),
+		auth("V.authorize(a0,#1,authority admin={a2})", k.Accounts[0], V, 1, vault.Action{UpdateAuthority: &vault.ActionUpdateAuthority{AdminAuthority: &vault.Authority{Addresses: []staking.Address{a2}, Threshold: 1}}}),
+		auth("V.authorize(a0,#0,two actions set)", k.Accounts[0], V, 0, vault.Action{Suspend: &vault.ActionSuspend{}, Resume: &vault.ActionResume{}}),
+		{Name: "V.cancel(a0,#0)", Signer: k.Accounts[0], Method: vault.MethodCancelAction, Body: vault.CancelAction{Vault: V, Nonce: 0}, FeeAmt: 1},
+		{Name: "unknown-vault.authorize(a0)", Signer: k.Accounts[0], Method: vault.MethodAuthorizeAction, Body: vault.AuthorizeAction{Vault: a2, Nonce: 0, Action: vault.Action{Suspend: &vault.ActionSuspend{}}}},
+		auth("W.authorize(a0,#0,policy a2 25/5) first of two", k.Accounts[0], W, 0, policy(a2, 25, 5)),
+		auth("W.authorize(a1,#0,policy a2 25/5) second of two", k.Accounts[1], W, 0, policy(a2, 25, 5)),
+		auth("W.authorize(a1,#0,different action)", k.Accounts[1], W, 0, policy(a2, 26, 5)),
+		auth("W.authorize(a0,#0,exec transfer W->a2 100>balance)", k.Accounts[0], W, 0, exec(staking.MethodTransfer, staking.Transfer{To: a2, Amount: qq(100)})),
+		auth("W.authorize(a1,#0,exec transfer W->a2 100>balance) second", k.Accounts[1], W, 0, exec(staking.MethodTransfer, staking.Transfer{To: a2, Amount: qq(100)})),
+		{Name: "W.cancel(a0,#0)", Signer: k.Accounts[0], Method: vault.MethodCancelAction, Body: vault.CancelAction{Vault: W, Nonce: 0}},
+		{Name: "W.cancel(a2 no authority,#0)", Signer: k.Accounts[2], Method: vault.MethodCancelAction, Body: vault.CancelAction{Vault: W, Nonce: 0}},
+		{Name: "withdraw(a1<-V,30)", Signer: k.Accounts[1], Method: staking.MethodWithdraw, Body: staking.Withdraw{From: V, Amount: qq(30)}, FeeAmt: 1},
+		{Name: "withdraw(a1<-V,50 within policy, above balance)", Signer: k.Accounts[1], Method: staking.MethodWithdraw, Body: staking.Withdraw{From: V, Amount: qq(50)}, FeeAmt: 1},
+		{Name: "withdraw(a1<-V,61 above policy)", Signer: k.Accounts[1], Method: staking.MethodWithdraw, Body: staking.Withdraw{From: V, Amount: qq(61)}},
+		{Name: "withdraw(a1<-V,35 second in interval)", Signer: k.Accounts[1], Method: staking.MethodWithdraw, Body: staking.Withdraw{From: V, Amount: qq(35)}},
+		{Name: "withdraw(a2<-V,1 no policy)", Signer: k.Accounts[2], Method: staking.MethodWithdraw, Body: staking.Withdraw{From: V, Amount: qq(1)}},
+		{Name: "withdraw(a0<-V,0)", Signer: k.Accounts[0], Method: staking.MethodWithdraw, Body: staking.Withdraw{From: V, Amount: qq(0)}},
+		{Name: "transfer(a0->V,10) deposit", Signer: k.Accounts[0], Method: staking.MethodTransfer, Body: staking.Transfer{To: V, Amount: qq(10)}},
+		{Name: "escrow(a0->V,50) vault as escrow account", Signer: k.Accounts[0], Method: staking.MethodAddEscrow, Body: staking.Escrow{Account: V, Amount: qq(50)}},
 	}
 	return ts
 }
